@@ -467,6 +467,7 @@ def execute(args: List[str] = None) -> List[str]:
     edit_parser.add_argument(
         "--private",
         action="store_true",
+        default=None,
         help="make torrent private",
         dest="private",
     )
